@@ -1296,6 +1296,7 @@ func replayEpochSched(file string, seed int64) ([]trace.Ev, runStat, []string) {
 	const E = 4
 	r := newRec(config{4, 3, false, E, 0}, "epoch-schedule", seed)
 	r.st.Cfg += ":" + filepath.Base(file) + ":" + sc.Variant
+	r.evs[0]["cfg"].(map[string]any)["forced"] = true // nodes pack where the vote order says, not on their best block
 	var notes []string
 	key := func(c []int) string { return fmt.Sprint(c) }
 	tips := map[string]*block.Block{key(nil): r.net.B0}
